@@ -98,8 +98,20 @@ func runC07(w *World, r *Report) {
 		}
 		okDefer := false
 		why := "the first statement of the entry point is not a deferred function"
-		if len(pfi.Decl.Body.List) > 0 {
-			if ds, ok := pfi.Decl.Body.List[0].(*ast.DeferStmt); ok {
+		// the defer must come before anything that can panic; statements that cannot (a length test that
+		// returns, declarations and assignments without calls, indexing, slicing or dereferences) may precede it
+		di := -1
+		for i, st := range pfi.Decl.Body.List {
+			if _, ok := st.(*ast.DeferStmt); ok {
+				di = i
+				break
+			}
+			if !cannotPanic(st) {
+				break
+			}
+		}
+		if di >= 0 {
+			if ds, ok := pfi.Decl.Body.List[di].(*ast.DeferStmt); ok {
 				if fl, ok := ds.Call.Fun.(*ast.FuncLit); ok {
 					hasRecover, assignsErr := false, false
 					ast.Inspect(fl.Body, func(m ast.Node) bool {
@@ -588,4 +600,34 @@ func (w *World) recursionRule(r *Report, root *ssa.Function, reach map[*ssa.Func
 			r.Fail(VViolation, "recursion", name, "", "-", "a cycle of the decode call graph does not provably pass a shorter input on any edge: nested messages could recurse without bound (stack overflow is not recoverable)")
 		}
 	}
+}
+
+// cannotPanic: a statement with no call (other than len/cap), no index, slice, dereference, type assertion,
+// division or conversion to a narrower type — nothing that can raise a run-time panic.
+func cannotPanic(st ast.Stmt) bool {
+	ok := true
+	ast.Inspect(st, func(n ast.Node) bool {
+		switch x := n.(type) {
+		case *ast.CallExpr:
+			id, isId := unparen(x.Fun).(*ast.Ident)
+			se, isSel := unparen(x.Fun).(*ast.SelectorExpr)
+			switch {
+			case isId && (id.Name == "len" || id.Name == "cap"):
+			case isSel && (se.Sel.Name == "New" || se.Sel.Name == "Errorf"):
+				// errors.New / fmt.Errorf building the rejection
+			default:
+				ok = false
+			}
+		case *ast.IndexExpr, *ast.SliceExpr, *ast.StarExpr, *ast.TypeAssertExpr, *ast.GoStmt, *ast.SendStmt:
+			ok = false
+		case *ast.BinaryExpr:
+			if x.Op == token.QUO || x.Op == token.REM {
+				ok = false
+			}
+		case *ast.ForStmt, *ast.RangeStmt:
+			ok = false
+		}
+		return ok
+	})
+	return ok
 }
